@@ -696,7 +696,7 @@ fn fd_adapters(ctx: &Ctx, thorough: bool) -> Vec<String> {
 
 pub fn run(tier: Tier, replay: Option<String>) -> i32 {
     let ctx = crate::new_ctx("C13", tier, "exploration", &replay);
-    ctx.set_rule("for every adapter the crate provides (&[u8], &mut [u8], Vec<u8>, Cursor<&[u8]>, Cursor<Vec<u8>>, Cursor<&mut [u8]>, File, OwnedFd, BorrowedFd, UnixStream, TcpStream, Stdout): every stream length 0..=20 (plus 4096, 65537 and 70001 with buffers of 4095..65537 bytes, single calls and pairs), every cursor position 0..=22 plus u64::MAX-1 and u64::MAX, every buffer length 0..=20 (single calls, plain and exact form, two buffer misalignments) and every sequence of 2 and 3 (thorough: also 4) consecutive calls over a boundary set of buffer lengths, plus every stream address mod 8 x transfer of 1/2/3/4/8 bytes x buffer alignment class (fd adapters: lengths 0..=9, 2 calls; also read(2)/write(2) that move at most k bytes or are interrupted (EINTR) on every 2nd / 3rd call, non-blocking stream sockets that cannot make progress (WouldBlock is reported, a watchdog turns a call that never returns into a finding), descriptors opened in the wrong access mode and datagram sockets, where an empty call is observable: error kinds and the list of datagrams delivered / left are compared) - each executed on the volatile adapter and on its std::io twin with an ordinary buffer; count / error kind, bytes landed, remaining stream / position / vector contents and canaries around the volatile buffer are compared after every call. One case = one call; non-trivial = non-empty buffer; distinct by construction.");
+    ctx.set_rule("for every adapter the crate provides (&[u8], &mut [u8], Vec<u8>, Cursor<&[u8]>, Cursor<Vec<u8>>, Cursor<&mut [u8]>, File, OwnedFd, BorrowedFd, UnixStream, TcpStream, Stdout): every stream length 0..=20 (plus 4096, 65537 and 70001 with buffers of 4095..65537 bytes, single calls and pairs), every cursor position 0..=22 plus u64::MAX-1 and u64::MAX, every buffer length 0..=20 (single calls, plain and exact form, two buffer misalignments) and every sequence of 2 and 3 (thorough: also 4) consecutive calls over a boundary set of buffer lengths, plus every stream address mod 8 x transfer of 1/2/3/4/8 bytes x buffer alignment class (fd adapters: lengths 0..=9, 2 calls; also read(2)/write(2) that move at most k bytes or are interrupted (EINTR) on every 2nd / 3rd call, non-blocking stream sockets that cannot make progress (WouldBlock is reported, a watchdog turns a call that never returns into a finding), descriptors opened in the wrong access mode and datagram sockets, where an empty call is observable: error kinds and the list of datagrams delivered / left are compared) - each executed on the volatile adapter and on its std::io twin with an ordinary buffer; count / error kind, bytes landed, remaining stream / position / vector contents and canaries around the volatile buffer are compared after every call. After a failed write_all the sink state (position / remaining room / contents) is compared as well. One case = one call; non-trivial = non-empty buffer; distinct by construction.");
     ctx.assume("stream state after a failed exact call is not compared (std leaves it unspecified)");
     if ctx.replay_of.is_some() {
         println!("replay: deterministic enumeration; re-running it");
